@@ -44,9 +44,12 @@ def get_file(desc, ctx):
 BAD_ORD = ["-1", "-n", "-n-1", "farneg", "n", "n+1", "lastpad", "padsize", "farpos"]
 
 
+_CV = [int]    # the integer type the out-of-range ordinals of the current case arrive in (case["argt"])
+
+
 def bad_ordinal(cls, n, npad):
-    return {"-1": -1, "-n": -n, "-n-1": -n - 1, "farneg": -10 * npad - 7, "n": n, "n+1": n + 1,
-            "lastpad": max(n, npad - 1), "padsize": max(n, npad), "farpos": 10 * npad + 11}[cls]
+    return _CV[0]({"-1": -1, "-n": -n, "-n-1": -n - 1, "farneg": -10 * npad - 7, "n": n, "n+1": n + 1,
+            "lastpad": max(n, npad - 1), "padsize": max(n, npad), "farpos": 10 * npad + 11}[cls])
 
 
 BAD_RANGE = ["hi=n+1", "hi=pad", "hi=far", "lo=-1", "lo=n", "empty", "reversed", "lo=farneg", "both-beyond"]
@@ -55,9 +58,9 @@ BAD_RANGE = ["hi=n+1", "hi=pad", "hi=far", "lo=-1", "lo=n", "empty", "reversed",
 def bad_range(cls, n, npad, u):
     lo = int(u * (n - 1))
     hi = min(n, lo + 2)
-    return {"hi=n+1": (lo, n + 1), "hi=pad": (lo, max(n + 1, npad)), "hi=far": (lo, 10 * npad + 3), "lo=-1": (-1, hi),
+    return tuple(_CV[0](x) for x in {"hi=n+1": (lo, n + 1), "hi=pad": (lo, max(n + 1, npad)), "hi=far": (lo, 10 * npad + 3), "lo=-1": (-1, hi),
             "lo=n": (n, n + 1), "empty": (lo, lo), "reversed": (hi, lo), "lo=farneg": (-3 * npad - 1, hi),
-            "both-beyond": (max(n, npad - 1), max(n, npad - 1) + 1)}[cls]
+            "both-beyond": (max(n, npad - 1), max(n, npad - 1) + 1)}[cls])
 
 
 METHODS_3D = ["read_inline", "read_crossline", "read_zslice", "read_inline_number", "read_crossline_number",
@@ -76,7 +79,8 @@ def cases(draw, ctx, two_d=False):
     m = draw(st.sampled_from(METHODS_2D if two_d else METHODS_3D))
     return {"file": desc, "m": m, "axis": draw(st.integers(0, 2)), "ord": draw(st.sampled_from(BAD_ORD)),
             "rng": draw(st.sampled_from(BAD_RANGE)), "u": [draw(st.floats(0, 1, exclude_max=True)) for _ in range(4)],
-            "coord": draw(st.sampled_from(["between", "below", "above", "stop+1", "stop", "start-1"]))}
+            "coord": draw(st.sampled_from(["between", "below", "above", "stop+1", "stop", "start-1"])),
+            "argt": draw(st.sampled_from(ops.ARG_FLAVOURS))}
 
 
 def off_axis(ax, how):
@@ -124,6 +128,7 @@ def classify(outcome, value, allowed_items, what, case):
 def run_case(case, ctx):
     path, T = get_file(case["file"], ctx)
     m, u = case["m"], case["u"]
+    _CV[0] = ops.ARG_TYPES[case.get("argt") or "int"]
     s = T.s
     H = ops.Handles(path, T)
     allowed = []
